@@ -70,10 +70,20 @@ impl FrameCase {
     }
 }
 
+/// the image string of a case: a short file name, a string with XML-special characters, or a data URI of 6 KB (what an
+/// embedded logo really is), in turn: the frame and the image geometry must not depend on it
+fn image_string(c: &FrameCase) -> String {
+    match (c.v + c.margin + c.frame) % 3 {
+        0 => format!("data:image/png;base64,{}", "iVBORw0KGgoAAAANSUhEUgAA".repeat(256)),
+        1 => "logo.png".to_string(),
+        _ => "l.png?a=1&b=<2>\"'".to_string(),
+    }
+}
+
 pub fn check_case(c: &FrameCase, q: &QRCode) -> (Vec<(String, String)>, Option<Geometry>) {
     let mut out = vec![];
     let n = q.size;
-    let model = SvgModel { margin: c.margin, image: Some("logo.png".into()), frame: c.frame, image_size: c.size, image_gap: c.gap, image_position: c.pos, ..SvgModel::default() };
+    let model = SvgModel { margin: c.margin, image: Some(image_string(c)), frame: c.frame, image_size: c.size, image_gap: c.gap, image_position: c.pos, ..SvgModel::default() };
     let doc = match subject::guarded(|| model.to_builder().to_str(q)) {
         Ok(d) => d,
         Err(m) => return (vec![("panic".into(), format!("to_str panicked: {}", m))], None),
